@@ -188,3 +188,6 @@ pub proof fn lits_std_headers()
     reveal_strlit("warning");
     reveal_strlit("www-authenticate");
 }
+// HeaderName::as_str: "Returns a str representation of the header" = the (lower-case) name
+pub assume_specification [http::header::HeaderName::as_str] (n: &http::header::HeaderName) -> (r: &str)
+    ensures r@ == hn_view(*n);
